@@ -33,6 +33,33 @@ CHECKS = {
          "DESIGN.md 4.C16", TB, "E-IN"),
 }
 
+CHECKS.update({
+ "C04": ("exploration", "bounded-exhaustive enumeration of (mnemonic, passphrase) pairs over a Unicode probe alphabet and length ladders vs an independent PBKDF2 over CPython-NFKD forms",
+         "All pairs of short strings over a 16-letter alphabet chosen to hit every normalisation mechanism, for both arguments, plus byte-length ladders across the HMAC-SHA512 block/padding boundaries and combining-mark runs; byte equality with a hand-written PBKDF2 (cross-checked against OpenSSL each run) over NFKD forms computed by CPython; result length and freshness. The x/text Stream-Safe deviation (>30 non-starters) is a recorded known finding keyed by exact inputs.",
+         "DESIGN.md 4.C04", TBU, "E-IN"),
+ "C06": ("fault_enumeration", "exhaustive enumeration of randomness-source answer scripts (failure point x kind x bytes alongside x fragmentation; all compositions; zero-length reads) on the real NewMnemonic",
+         "Every script of the stated families is executed against the real NewMnemonic through the verif swap hook; the stream has a distinct value at every offset so any misplaced, dropped or zero-padded byte is visible. Fail-closed on every early failure; exact reference encoding of the delivered bytes on success.",
+         "DESIGN.md 4.C06", TB + "; verif hook VerifSwapRandSource", "E-FAULT"),
+ "C07": ("model_checking", "explicit-state BFS over call histories (fresh process per transition, fixpoint over package-state fingerprints) with the invariant source == crypto/rand.Reader",
+         "In every reachable package state of the no-swap alphabet, and at every process start, the source variable holds crypto/rand.Reader itself. Byte-exact dependence of the output on the source is C06's oracle. Statistics of the OS generator are out of scope.",
+         "DESIGN.md 4.C07", TB + "; verif hook VerifSwapRandSource; generated state accessor (overlay, not committed)", "E-HIST"),
+ "C08": ("exploration", "complete enumeration of the finite domain 10 languages x 2048 indices through the API, digests, well-formedness, validation round trip, source text",
+         "Every (language, index) is observed at every word position of every size and compared byte-for-byte with the golden lists; observed lists are re-hashed against pinned digests; each word is mapped back by validation probes; the source text of internal/wordlist is parsed and compared.",
+         "DESIGN.md 4.C08", TB, "E-IN"),
+ "C10": ("exploration", "bounded-exhaustive enumeration of NFKD-equal spelling pairs (all list words x all single-code-point respellings / normal forms / separators) on the real validator",
+         "For every pair of strings that CPython says have the same NFKD form the real CheckMnemonic must return the same verdict class, and valid sentences must be accepted in every spelling.",
+         "DESIGN.md 4.C10", TBU, "E-IN"),
+ "C11": ("exploration", "bounded-exhaustive enumeration of NFKD-equal (mnemonic, passphrase) pairs on the real MnemonicToSeed, differential + reference PBKDF2",
+         "Cover sentences containing every list word of every language in NFC/NFD/NFKC/full-width and with U+3000 separators, passphrase forms, mark runs: equal seeds within each pair and equal to the reference. The Stream-Safe deviation is a recorded known finding keyed by exact pairs.",
+         "DESIGN.md 4.C11", TBU, "E-IN"),
+ "C13": ("model_checking", "explicit-state BFS over API call histories to a fixpoint; each transition executed in a fresh process; differential oracle against the fresh-state outcome",
+         "All reachable package states (fingerprint of every package-level variable) x the operation alphabet; every executed call must return what it returns in a fresh process, caller buffers and earlier results must stay intact; plus the complete ordered first-use matrix of language pairs.",
+         "DESIGN.md 4.C13", TB + "; generated state accessor (overlay, not committed); dependencies assumed observationally stateless", "E-HIST"),
+ "C14": ("exploration", "bounded-exhaustive enumeration of hostile arguments (all short byte strings incl. ill-formed UTF-8, all 2-byte tokens, Language ranges and int boundaries, size ladders, all lengths/counts) with panic recovery and a hang watchdog",
+         "Every call must return; panics are recovered per call and reported; a 180 s watchdog reports hangs.",
+         "DESIGN.md 4.C14", TB, "E-IN"),
+})
+
 NOT_YET = {
 }
 
